@@ -22,7 +22,7 @@ from ..seqmc.models import call, tree
 P = "C16"
 FORMS = ["absolute", "relative", "trailing_slash", "nested_new", "symlinked_parent"]
 CACHES = ["unset", None, False, True, 0, -1, 3]
-CWD_MODES = ["same_cwd", "other_cwd_in_second_process", "chdir_inside_process"]
+CWD_MODES = ["same_cwd", "other_cwd_in_second_process", "chdir_inside_process", "same_set_store_call_after_chdir"]
 MOD = '''import dds
 LOG = []
 X = 1
@@ -90,8 +90,10 @@ def run_config(fi, fd, cache, mode):
 
         want = {"keep1": "one(1)", "keep3": "three\x01", "load1": "one(1)", "load3": "three\x01"}
 
-        def check(steps, who, expect_exec):
+        def check(steps, who, expect_exec, must_exec=False):
             for name, st, val, log in steps:
+                if must_exec and st == "ok" and name.startswith("keep") and not log:
+                    bad("served_from_another_store", f"{who}: {name} did not execute although this store is empty")
                 if st != "ok":
                     bad(f"{name.rstrip('13')}_fails|{val.split(':')[0]}", f"{who}: {name} raised {val}")
                     return False
@@ -102,7 +104,15 @@ def run_config(fi, fd, cache, mode):
                     if name.startswith("keep") and not expect_exec and log:
                         bad("recomputed", f"{who}: {name} executed {log} although the blob is stored")
             return True
-        if mode == "chdir_inside_process":
+        if mode == "same_set_store_call_after_chdir":
+            # the very same set_store call is made again after the working directory changed: with a relative internal_dir this is
+            # ANOTHER (empty) store, with an absolute one the same store; either way keep then load must round-trip
+            steps = _proc(dict(common, cwd=os.path.join(base, "cwd1"), internal=i1, data=d1,
+                               actions=["keep", "chdir:" + os.path.join(base, "cwd2"), "set_store", "keep", "load"]))
+            if check(steps[:3], "process 1", True):
+                check(steps[4:], "process 1 after os.chdir and the same set_store call", fi == "relative", must_exec=(fi == "relative"))
+            stray_ok = fi == "relative" or fd == "relative"
+        elif mode == "chdir_inside_process":
             steps = _proc(dict(common, cwd=os.path.join(base, "cwd1"), internal=i1, data=d1, actions=["keep", "chdir:" + os.path.join(base, "cwd2"), "load", "keep"]))
             # the second 'keep' round must find everything stored
             first = steps[:3]
@@ -122,7 +132,7 @@ def run_config(fi, fd, cache, mode):
             if not os.path.isdir(p_):
                 bad("dir_missing", f"{name} {p_} does not exist after the run")
         stray = [x for x in os.listdir(os.path.join(base, "cwd2"))]
-        if stray:
+        if stray and not (mode == "same_set_store_call_after_chdir" and (fi == "relative" or fd == "relative")):
             bad("stray_files", f"files created in an unrelated working directory: {stray}")
     finally:
         shutil.rmtree(base, ignore_errors=True)
